@@ -461,7 +461,11 @@ class DataFrameModel(Generic[TDataFrame, TSchema], BaseModel):
         matched: Set[str] = set()
         for regex in regexps:
             pattern = re.compile(regex)
-            matched.update(filter(pattern.match, seq))
+            # field names are not necessarily strings (e.g. alias=2020):
+            # match on the string form, like regex columns do
+            matched.update(
+                name for name in seq if pattern.match(str(name))
+            )
         return matched
 
     @classmethod
